@@ -804,6 +804,181 @@ int main(void) {
 
 
 # ---------------------------------------------------------------------------
+# G2: yyinput() / yyunput() as units, from an arbitrary valid in-action state
+
+def g2_harness(g, cfg, spec, cap, m, nops=1, witness=False):
+    """White box (C skeleton, %pointer): arbitrary buffer (capacity bs <= cap,
+    fill n, token [p, p+tl) set up as inside an action, status NORMAL or EOF
+    pending), <= m further source bytes in symbolic chunks; then nops
+    solver-chosen edits (yyinput() or yyunput(c)).  After every edit the unread
+    input must be exactly the edited stream."""
+    pre = ('static int vp_read(char *buf, int max_size);\n'
+           '#define YY_INPUT(buf, result, max_size) do { (result) = vp_read((buf), (int)(max_size)); } while (0)')
+    h = common_head(g, cfg, spec, 1)
+    marker = '#include "%s"' % os.path.basename(g.cpath)
+    h = h.replace(marker, pre + '\n' + marker)
+    h = h.replace(ALLOC, r"""
+static int vp_realloc_calls;
+static int vp_fake_file;
+static char vp_mem[VP_ARENA];
+#ifndef REPLAY
+int isatty(int fd) { return 0; }
+int fileno(FILE *f) { return 0; }
+#define VP_FILE ((FILE *)&vp_fake_file)
+#else
+#define VP_FILE stdin
+#endif
+void *yyalloc(VP_SIZE_T n VP_ALLOC_EXTRA) { void *p = malloc(n); VP_ASSUME(p != 0); return p; }
+void *yyrealloc(void *q, VP_SIZE_T n VP_ALLOC_EXTRA) {
+  VP_ASSERT(q == (void *)vp_mem, "only the character buffer is regrown");
+  vp_realloc_calls++;
+  VP_ASSUME(n <= VP_ARENA);            /* larger: outside the bound */
+  return q;
+}
+void yyfree(void *p VP_ALLOC_EXTRA) { }
+""")
+    H = ['#define VP_CAP %d' % cap, '#define VP_ARENA %d' % (4 * (cap + m) + 8), h]
+    H.append('#define VP_M %d' % m)
+    H.append('#define VP_NOPS %d' % nops)
+    H.append('#define VP_L %d' % (cap + m))
+    H.append('#define VP_YYLINENO %d' % (1 if ('M4_MODE_YYLINENO */' in g.text) else 0))
+    H.append('#define VP_INPUT() %s' % ('yyinput()' if cfg.api == 'nr' else 'yyinput(vp_scanner)'))
+    if witness:
+        H.append('#define VP_WITNESS 1')
+    H.append(r"""
+unsigned char vpi_buf[VP_CAP], vpi_src[VP_M > 0 ? VP_M : 1], vpi_chunk[VP_M + 1];
+int vpi_bs, vpi_n, vpi_p, vpi_tl, vpi_status, vpi_avail, vpi_sc, vpi_ours;
+int vpi_op[VP_NOPS], vpi_c[VP_NOPS];
+static int vp_reads, vp_pos;
+static struct yy_buffer_state vp_bs;
+static yybuffer vp_stack[1];
+/* model of the logical unread stream: vp_model[vp_head .. vp_end) */
+static unsigned char vp_model[VP_NOPS + VP_L + 1];
+static int vp_head, vp_end;
+
+static int vp_read(char *buf, int max_size) {
+  VP_ASSERT(max_size >= 1, "read request asks for at least one byte");
+  VP_ASSERT(vpi_status != YY_BUFFER_EOF_PENDING, "no read after end of input was seen");
+  int avail = vpi_avail - vp_pos;
+  if (avail <= 0) return 0;
+  VP_ASSERT(vp_reads <= VP_M, "bounded number of reads");
+  int k = vpi_chunk[vp_reads <= VP_M ? vp_reads : VP_M];
+  vp_reads++;
+  VP_ASSUME(k >= 1 && k <= avail && k <= max_size);
+  for (int i = 0; i < VP_M; i++) if (i < k) buf[i] = (char)vpi_src[vp_pos + i];
+  vp_pos += k;
+  return k;
+}
+
+/* the unread input of the scanner (buffer part then source part) is the model */
+static void vp_check_stream(void) {
+  char *cb = VP_G(yy_c_buf_p);
+  int n2 = VP_G(yy_n_chars);
+  int at = (int)(cb - vp_bs.yy_ch_buf);
+  VP_ASSERT(vp_bs.yy_ch_buf == vp_mem, "buffer memory");
+  VP_ASSERT(at >= 0 && at <= n2 && n2 <= vp_bs.yy_buf_size, "position within text within buffer");
+  VP_ASSERT(vp_mem[n2] == 0 && vp_mem[n2 + 1] == 0, "end-of-buffer characters in place");
+  VP_ASSERT((n2 - at) + (vpi_avail - vp_pos) == vp_end - vp_head, "no input lost or duplicated by the edit");
+  for (int i = 0; i < VP_NOPS + VP_L; i++) if (i < n2 - at) {
+    unsigned char have = (i == 0) ? (unsigned char)VP_G(yy_hold_char) : (unsigned char)vp_mem[at + i];
+    VP_ASSERT(have == vp_model[vp_head + i], "unread buffer text is the edited stream");
+  }
+  for (int i = 0; i < VP_M; i++) if (i >= vp_pos && i < vpi_avail)
+    VP_ASSERT(vpi_src[i] == vp_model[vp_head + (n2 - at) + (i - vp_pos)], "unread source continues the edited stream");
+}
+
+int main(void) {
+  VP_DECL_SCANNER
+#ifdef REPLAY
+#include "vp_replay_set.inc"
+#else
+  for (int i = 0; i < VP_CAP; i++) vpi_buf[i] = nondet_uchar();
+  for (int i = 0; i < VP_M; i++) vpi_src[i] = nondet_uchar();
+  for (int i = 0; i < VP_M + 1; i++) vpi_chunk[i] = nondet_uchar();
+  for (int i = 0; i < VP_NOPS; i++) { vpi_op[i] = nondet_int(); vpi_c[i] = nondet_int(); }
+  vpi_bs = nondet_int(); vpi_n = nondet_int(); vpi_p = nondet_int(); vpi_tl = nondet_int();
+  vpi_status = nondet_int(); vpi_avail = nondet_int(); vpi_sc = nondet_int(); vpi_ours = nondet_int();
+#endif
+  VP_ASSUME(vpi_bs >= 1 && vpi_bs <= VP_CAP);
+  VP_ASSUME(vpi_n >= 0 && vpi_n <= vpi_bs);
+  VP_ASSUME(vpi_p >= 0 && vpi_p <= vpi_n);
+  VP_ASSUME(vpi_tl >= 0 && vpi_tl <= VP_CAP && vpi_p + vpi_tl <= vpi_n);
+  VP_ASSUME(vpi_status == YY_BUFFER_NORMAL || vpi_status == YY_BUFFER_EOF_PENDING);
+  VP_ASSUME(vpi_avail >= 0 && vpi_avail <= VP_M);
+  VP_ASSUME(vpi_status != YY_BUFFER_EOF_PENDING || vpi_avail == 0);
+  VP_ASSUME(vpi_sc >= 0 && vpi_sc < VP_NSC);
+  VP_ASSUME(vpi_ours == 0 || vpi_ours == 1);
+  VP_ASSUME(vpi_ours == 1 || vpi_avail == 0);      /* a user-owned buffer (yy_scan_buffer) has no source behind it */
+  for (int i = 0; i < VP_NOPS; i++) { VP_ASSUME(vpi_op[i] == 0 || vpi_op[i] == 1); VP_ASSUME(vpi_c[i] >= 0 && vpi_c[i] <= 255); }
+  vp_head = VP_NOPS; vp_end = VP_NOPS;
+  for (int i = 0; i < VP_CAP; i++) if (i >= vpi_p + vpi_tl && i < vpi_n) vp_model[vp_end++] = vpi_buf[i];
+  for (int i = 0; i < VP_M; i++) if (i < vpi_avail) vp_model[vp_end++] = vpi_src[i];
+  VP_INIT_SCANNER();
+  for (int i = 0; i < VP_CAP; i++) if (i < vpi_n) vp_mem[i] = (char)vpi_buf[i];
+  vp_mem[vpi_n] = 0; vp_mem[vpi_n + 1] = 0;
+  vp_bs.yy_input_file = VP_FILE;
+  vp_bs.yy_ch_buf = vp_mem; vp_bs.yy_buf_pos = vp_mem + vpi_p;
+  vp_bs.yy_buf_size = vpi_bs; vp_bs.yy_n_chars = vpi_n;
+  vp_bs.yy_is_our_buffer = vpi_ours; vp_bs.yy_fill_buffer = vpi_ours; vp_bs.yy_buffer_status = vpi_status;
+  vp_bs.yyatbol = 0; vp_bs.yy_bs_lineno = 1;
+  vp_stack[0] = &vp_bs;
+  VP_G(yy_buffer_stack) = vp_stack; VP_G(yy_buffer_stack_top) = 0; VP_G(yy_buffer_stack_max) = 1;
+  VP_G(yy_n_chars) = vpi_n; VP_G(yy_init) = 1;
+  yyin = VP_FILE; yyout = VP_FILE;
+  VP_BEGIN(vpi_sc);
+  /* as inside an action: token [p, p+tl), its end overwritten by the terminator */
+  VP_TEXTPTR = vp_mem + vpi_p;
+  VP_G(yy_c_buf_p) = vp_mem + vpi_p + vpi_tl;
+  VP_G(yy_hold_char) = vp_mem[vpi_p + vpi_tl];
+  vp_mem[vpi_p + vpi_tl] = 0;
+  int line = 1, inputs = 0, unputs = 0, refills = 0;
+  vp_expect_fatal = 0;
+  for (int k = 0; k < VP_NOPS; k++) {
+    int reads0 = vp_reads;
+    if (vpi_op[k] == 0) {
+      /* yyinput(): consumes and returns the next character; end-of-input value only when none remains */
+      int r = VP_INPUT();
+      if (vp_head == vp_end) {
+        VP_ASSERT(r == 0, "yyinput() at the end of the input gives its end-of-input value");
+        VP_ASSERT(VP_START() == vpi_sc, "start condition unchanged");
+        return 0;
+      }
+      VP_ASSERT(r == vp_model[vp_head], "yyinput() returns the next character of the input");
+      if (r == '\n') line++;
+      vp_head++; inputs++;
+#if VP_HAS_BOL
+      VP_ASSERT((VP_ATBOL() != 0) == (r == '\n'), "after yyinput() the scanner is at beginning of line exactly if it consumed a newline");
+#endif
+    } else {
+      /* yyunput(c): c becomes the next character read.  Push-back room: the
+       * skeleton needs two free bytes in front of the scan position after
+       * moving the text to the end of the buffer; only then may it stop */
+      int at = (int)(VP_G(yy_c_buf_p) - vp_bs.yy_ch_buf);
+      vp_expect_fatal = (at < 2 && at + (vp_bs.yy_buf_size - VP_G(yy_n_chars)) < 2);
+      yyunput(vpi_c[k]);
+      vp_expect_fatal = 0;
+      VP_ASSERT(vp_reads == reads0, "yyunput() does not read input");
+      vp_model[--vp_head] = (unsigned char)vpi_c[k];
+      if (vpi_c[k] == '\n') line--;
+      unputs++;
+    }
+    if (vp_reads > reads0) refills++;
+    vp_check_stream();
+#if VP_YYLINENO
+    VP_ASSERT(VP_LINENO() == line, "yylineno follows newlines read by yyinput() and pushed back by yyunput()");
+#endif
+    VP_ASSERT(VP_START() == vpi_sc, "start condition unchanged");
+  }
+#ifdef VP_WITNESS
+  VP_ASSERT(!(refills >= 1 && inputs >= 1), "WITNESS: yyinput() across a refill");
+#endif
+  return 0;
+}
+""")
+    return '\n'.join(H)
+
+
+# ---------------------------------------------------------------------------
 # E3w: one yylex() step from an arbitrary valid buffer state (inductive step)
 
 def e3w_harness(g, cfg, spec, bs, m, maxnul=1, witness=False, interactive_check=False):
